@@ -35,6 +35,7 @@ func c08(c *Ctx) {
 	c08R8(c)
 	requesterGuardRule(c, "R9")
 	requestBookkeepingRule(c, "R10")
+	c08R11(c)
 }
 
 func c08R4(c *Ctx) {
@@ -939,4 +940,51 @@ func c08R7(c *Ctx) {
 		}
 	}
 	c.R.Ob(rule, "addRound-call-sites", len(sites) >= 3, "-", "", fmt.Sprintf("%d", len(sites)))
+}
+
+// c08R11: peer-decoded bit arrays may be nil (go-wire encodes a nil pointer) and IsConsistent accepts nil;
+// the binary operations the gossip goroutines apply to them must tolerate a nil operand.
+func c08R11(c *Ctx) {
+	rule := c.R.Rule("R11", "nil operand tolerance: every method of *BitArray that takes another *BitArray dereferences that operand (field access) only under `operand != nil` — PeerState holds bit arrays decoded from peers, nil included, and the gossip goroutines (no recover) pass them to these methods (only methods reachable from an unrecovered goroutine carry the obligation)", 2)
+	n := 0
+	scope, _ := c.unrecoveredScope()
+	for _, fn := range c.P.FuncsOfPkg("gemmill/modules/go-common") {
+		if fn.Signature.Recv() == nil || !strings.Contains(core.FuncName(fn), "(*BitArray).") || fn.Blocks == nil {
+			continue
+		}
+		// obligations only for the operations the goroutines without a recover can reach; a nil operand in
+		// Receive's own context (Or/Update in ApplyVoteSetBitsMessage) disconnects that peer, which the property allows
+		if !scope[fn] {
+			continue
+		}
+		f := c.Fn(fn)
+		for pi, p := range fn.Params {
+			if pi == 0 || !strings.HasSuffix(p.Type().String(), "go-common.BitArray") {
+				continue
+			}
+			if _, isPtr := p.Type().(*types.Pointer); !isPtr {
+				continue
+			}
+			n++
+			pe := exprOf(p)
+			var bad ssa.Instruction
+			for _, b := range fn.Blocks {
+				for _, ins := range b.Instrs {
+					fa, ok := ins.(*ssa.FieldAddr)
+					if !ok || !f.Live(ins) || exprOf(fa.X) != pe {
+						continue
+					}
+					if !f.HasGuard(ins, eqs("("+pe+" != nil)")) {
+						bad = ins
+					}
+				}
+			}
+			pos := c.P.Pos(fn.Pos())
+			if bad != nil {
+				pos = c.Pos(bad)
+			}
+			c.R.Ob(rule, "nil-operand:"+fn.Name(), bad == nil, pos, core.FuncName(fn), "operand "+pe+" is dereferenced without a nil test: a peer that sends a message whose bit array is nil (e.g. CommitStepMessage.BlockParts) crashes the gossip goroutine that combines it with ours")
+		}
+	}
+	c.R.Ob(rule, "bitarray-binary-methods", n >= 2, "-", "", fmt.Sprintf("%d reachable from unrecovered goroutines", n))
 }
